@@ -169,7 +169,7 @@ Section WithApi.
     | DInt z => d = Z_dec z
     | DFloat r => d = r
     | DUnknown => d = K"unknown"
-    | DStr x => d = x \/ (p_assigned p = POSITIONAL_VARARG /\ x = K"()" /\ d = K"[]")
+    | DStr x => d = requote_default x \/ (p_assigned p = POSITIONAL_VARARG /\ x = K"()" /\ d = K"[]")
     end.
   Proof.
     unfold render_default. destruct (p_default p) as [|x|b|z|r|]; intro H; try (minv_all; auto; fail).
